@@ -98,3 +98,63 @@ def run(ctx):
                          assumptions=["prefixes are exactly the reachable crash states (the file is written front to back in one pass)",
                                       "load_batch_sample_names (ZSTD decode of the sample table) is not executed: a handle returned by Decompressor::open up to that call counts as accepted",
                                       "an allocation larger than the file size is reported as unbounded"])
+
+
+# ---------------------------------------------------------------------------------------------------------------
+# Prefixes of an archive written by the REAL pipeline (harness/pipe.py): real params / collection / segment streams and footer, and the
+# real load_batch_sample_names (no stub): every strict prefix must be refused by Decompressor::open, the whole file accepted.
+from harness.pipe import Pipeline as _Pipeline, SPL as _SPL, TWO as _TWO, PATH as _PPATH
+
+
+class PipeTrunc(Instance):
+    crates = ("ragc-core", "ragc-common")
+
+    def __init__(self, name, zstd):
+        Instance.__init__(self, name)
+        self.writer = _Pipeline(name + "_writer", 1, _TWO, splitters=_SPL, preempt=0, driver="api", zstd=zstd)
+        self.required_witnesses = ("rejected", "full_file_accepted")
+        self.n_concrete = 0
+        self.bounds = {"archive": f"written in-engine by the real pipeline (2 samples, 3 contigs, {zstd} codec)", "truncation": "every strict prefix length 0..|F|-1, plus the whole file"}
+
+    def path(self, e):
+        c = self.__dict__.setdefault("_arc", {})
+        if "data" not in c:
+            r = self.writer.run_pipeline(e, sched=False)
+            if r.variant != 0:
+                raise Unsupported("writer failed")
+            e.sched.shutdown(); e.sched = None
+            c["data"] = [x.v for x in e.fs.files[_PPATH].data]; c["tabs"] = (e.h.get("zstd_table", []), e.h.get("zstd_hash_table", {}))
+        from mirsym import models_io
+        e.fs = models_io.FS(); e.sched = None
+        e.h["zstd_table"], e.h["zstd_hash_table"] = c["tabs"]
+        full = c["data"]; N = len(full)
+        n = e.choose(N + 1, "n")
+        e.inputs["file"] = full
+        fd = models_io.FileData(); fd.data[:] = [Int(8, 0, b) for b in full[:n]]
+        e.fs.files[PATH] = fd
+        e.alloc_limit = max(n, 8)
+        cfg = e.struct("DecompressorConfig", verbosity=Int(32, 0, 0))
+        r = e.call_fn(CORE, "Decompressor::open", [e.str_slice(PATH), cfg])
+        if n == N:
+            e.prove(r.variant == 0, "trunc:complete_file_rejected", "the complete archive was rejected by open")
+            e.witness("full_file_accepted")
+        else:
+            e.prove(r.variant == 1, "trunc:prefix_accepted", f"open returned a handle for the {n}-byte prefix of a {N}-byte archive")
+            e.witness("rejected")
+        return None
+
+    def classify_panic(self, e, ex):
+        if ex.kind == "alloc_unbounded":
+            return "trunc:alloc_unbounded", str(ex)
+        return f"trunc:panic:{ex.where.split('::')[-1]}:{ex.kind}", str(ex)
+
+    def native(self, inp):
+        return "open_prefix", {"file": inp["file"], "n": inp["n"]}
+
+    def confirm(self, viol, outs):
+        return any(("panic" in o or "crash" in o or o.get("opened") is True) for o in outs.values()) if viol["inputs"]["n"] < len(viol["inputs"]["file"]) else \
+            any(("panic" in o or "crash" in o or o.get("opened") is False) for o in outs.values())
+
+
+QUICK.append(_reg(PipeTrunc("pipe_prefixes", "token")).name)
+THOROUGH += ["pipe_prefixes", _reg(PipeTrunc("T_pipe_prefixes_store", "store")).name]
